@@ -64,6 +64,24 @@ var (
 	wTrailerForbid = []string{"Content-Length", "Host", "Trailer", "Transfer-Encoding", "Authorization", "If-Match", "Te", "Content-Type", "Connection", "Range"}
 )
 
+// wTEValues: the canonical spelling, case / whitespace variants of it, lists with and without the keyword, other codings.
+var wTEValues = []string{"trailers", "trailers", "trailers", "Trailers", "TRAILERS", "tRaIlErS", " trailers", "trailers ", "\ttrailers", " Trailers  ", "TRAILERS ",
+	"gzip", "deflate;q=0.5", "trailers, deflate", "gzip,Trailers", "trailers,trailers", "Trailers;q=1", "trailer", "trailers2", ""}
+
+// teMeaning classifies one caller-supplied TE value: "keyword" = the trailers keyword alone (any case, surrounding
+// whitespace), "list" = a list that contains the keyword among other members, "other" = no trailers keyword.
+func teMeaning(v string) string {
+	if strings.EqualFold(strings.Trim(v, " \t"), "trailers") {
+		return "keyword"
+	}
+	for _, m := range strings.Split(v, ",") {
+		if strings.EqualFold(strings.Trim(m, " \t"), "trailers") {
+			return "list"
+		}
+	}
+	return "other"
+}
+
 func genKV(t *rapid.T, name string) KV {
 	kv := KV{K: S(name)}
 	n := rapid.SampledFrom([]int{1, 1, 1, 2, 2, 3, 0}).Draw(t, "nv")
@@ -126,8 +144,11 @@ func genWCase(t *rapid.T) WCase {
 		switch asciiLower(name) {
 		case "te":
 			kv.V = nil
-			for j := rapid.IntRange(1, 2).Draw(t, "nte"); j > 0; j-- {
-				kv.V = append(kv.V, S(pick(t, "te", []string{"trailers", "trailers", "trailers", "gzip", "trailers, deflate", "deflate;q=0.5"})))
+			// RFC 9110 10.1.4: the keyword is case-insensitive (ABNF literal) and RFC 9110 5.5 / 5.6.1 make the whitespace
+			// around a value / list member insignificant, so callers legitimately write "Trailers", " trailers" ...; lists
+			// and several TE lines are legal HTTP/1.1 usage that an HTTP/3 writer has to reduce (RFC 9114 4.2)
+			for j := rapid.SampledFrom([]int{1, 1, 2, 3}).Draw(t, "nte"); j > 0; j-- {
+				kv.V = append(kv.V, S(pick(t, "te", wTEValues)))
 			}
 		case "trailer":
 			kv.V = []S{S(pick(t, "tr", []string{"X-T", "X-T, X-U", "x-v"}))}
@@ -326,7 +347,7 @@ func checkWCase(c WCase, u *vf.Unit) *vf.Verdict {
 	var want []nv
 	multiSource := map[string]int{}
 	hasUA := false
-	teDropped := 0
+	teDropped, teVariant, teList := 0, 0, 0
 	for _, kv := range c.Header {
 		l := asciiLower(string(kv.K))
 		multiSource[l]++
@@ -343,6 +364,21 @@ func checkWCase(c WCase, u *vf.Unit) *vf.Verdict {
 			continue
 		}
 		for _, v := range kv.V {
+			if l == "te" {
+				// The request means "TE: trailers" when a value is the keyword in any spelling; on the wire only the exact
+				// lowercase form is permitted (RFC 9114 4.2), so that is what the writer has to emit for it. A list that
+				// contains the keyword may be reduced to it or dropped (a writer need not parse lists): optional.
+				switch teMeaning(string(v)) {
+				case "keyword":
+					if v != "trailers" {
+						teVariant++
+					}
+					want = append(want, nv{l, "trailers"})
+					continue
+				case "list":
+					teList++
+				}
+			}
 			want = append(want, nv{l, string(v)})
 		}
 	}
@@ -428,6 +464,20 @@ func checkWCase(c WCase, u *vf.Unit) *vf.Verdict {
 	}
 	wantCmp := filterTE(want, true)
 	gotCmp := filterTE(got, false)
+	{
+		// up to teList further "trailers" (from reduced lists) are acceptable
+		cnt := func(x []nv) (n int) {
+			for _, e := range x {
+				if e.n == "te" {
+					n++
+				}
+			}
+			return
+		}
+		for extra := cnt(gotCmp) - cnt(wantCmp); extra > 0 && extra <= teList; extra-- {
+			wantCmp = append(wantCmp, nv{"te", "trailers"})
+		}
+	}
 	// Trailer header values supplied by the user in Header["Trailer"] are ordinary fields here
 	var wantTrailerFromHeader []string
 	{
@@ -643,6 +693,21 @@ func checkWCase(c WCase, u *vf.Unit) *vf.Verdict {
 	}
 	if teDropped > 0 {
 		u.Class("te-other")
+	}
+	if teVariant > 0 {
+		u.Class("te-keyword-variant")
+	}
+	if teList > 0 {
+		u.Class("te-list-with-keyword")
+	}
+	nTE := 0
+	for _, kv := range c.Header {
+		if asciiLower(string(kv.K)) == "te" {
+			nTE += len(kv.V)
+		}
+	}
+	if nTE > 1 {
+		u.Class("te-multiple-lines")
 	}
 	if strings.Contains(c.Target, "?") {
 		u.Class("query")
